@@ -12,7 +12,8 @@
 From Coq Require Import String.
 From NV Require Import Base.Tac Base.PyVal Base.PyStr Model.IpText Model.FbSocket Model.AddrText Model.SrcPrelude Model.SrcPreludeText
   Gen.pysrc_fbsocket_gen Gen.pysrc_ipv4_gen Gen.pysrc_ipv6_gen Proofs.GenOk_Src_C01 Proofs.GenOk_Src_C01_text.
-From NV Require Model.NetText.
+From NV Require Model.NetText Model.Codec.
+From NV Require Import Proofs.GenOk_Src_C15_ip.
 Import ListNotations.
 Close Scope string_scope.
 Open Scope Z_scope.
@@ -31,14 +32,20 @@ Print Assumptions C01_source_tie.
    C03).  The back-end `be` (platform socket functions = the oracles Std4 / Std6, or netaddr.fbsocket = Model/FbSocket.v) is a
    parameter of both sides: the module-level names _inet_aton / _inet_pton / _inet_ntop are read as the prelude symbols
    py_inet_aton / py_inet_pton4 / py_inet_pton6 / py_inet_ntop6 (Model/SrcPreludeText.v).  INET_PTON / ZEROFILL are read from
-   netaddr/core.py.  No hypotheses. *)
+   netaddr/core.py.  An IPv6 dialect class is seen through the two class attributes the code reads, the pair (word_fmt, compact)
+   (GenOk_Src_C01_text.dcls maps the model's dialect record to it; the generated constants for ipv6_compact / ipv6_verbose are read
+   from the class bodies).  ipv6.int_to_arpa (property C15) is stated against Codec.ip_reverse_dns on the ipv6 row of the
+   regenerated dialect table (GenOk_Src_C15_ip.row6).  No hypotheses. *)
 Theorem C01_source_tie_text :
   (forall be addr flags, src_ipv4_valid_str be addr flags = valid_str be 4 addr flags) /\
   (forall be addr flags, src_ipv4_str_to_int be addr flags = str_to_int be 4 addr flags) /\
   (forall be v d, src_ipv4_int_to_str v tt = int_to_str be 4 v d) /\
   (forall s, src_ipv4_expand_partial_address s = NetText.expand_partial_address s) /\
   (forall be addr flags, src_ipv6_valid_str be addr flags = valid_str be 6 addr flags) /\
-  (forall be addr flags, src_ipv6_str_to_int be addr flags = str_to_int be 6 addr flags).
+  (forall be addr flags, src_ipv6_str_to_int be addr flags = str_to_int be 6 addr flags) /\
+  (src_ipv6_ipv6_compact = dcls ipv6_compact /\ src_ipv6_ipv6_verbose = dcls ipv6_verbose) /\
+  (forall be v d, src_ipv6_int_to_str be v (option_map dcls d) = int_to_str be 6 v d) /\
+  (forall be v, src_ipv6_int_to_arpa be v = Codec.ip_reverse_dns "ipv6"%string row6 v).
 Proof. exact C01_tie_text1_ok. Qed.
 Print Assumptions C01_source_tie_text.
 
@@ -56,5 +63,9 @@ Example C01_src_nonvacuous :
   src_ipv4_str_to_int Fallback "010.1.2.3"%string 3 = Ok 167838211 /\ src_ipv4_str_to_int Platform "1.2"%string 0 = Ok 16777218 /\
   src_ipv4_str_to_int Platform "1.2"%string 1 = Raise AddrFormatError /\ src_ipv4_valid_str Fallback "1.2.3.256"%string 1 = Ok false /\
   src_ipv4_expand_partial_address "10.1"%string = Ok "10.1.0.0"%string /\ src_ipv4_expand_partial_address "::1"%string = Raise AddrFormatError /\
-  src_ipv6_str_to_int Fallback "::ffff:1.2.3.4"%string 0 = Ok 281470698652420 /\ src_ipv6_valid_str Platform "1::2::3"%string 0 = Ok false.
+  src_ipv6_str_to_int Fallback "::ffff:1.2.3.4"%string 0 = Ok 281470698652420 /\ src_ipv6_valid_str Platform "1::2::3"%string 0 = Ok false /\
+  src_ipv6_int_to_str Fallback 281470698652420 None = Ok "::ffff:1.2.3.4"%string /\
+  src_ipv6_int_to_str Platform 65537 (Some src_ipv6_ipv6_verbose) = Ok "0000:0000:0000:0000:0000:0000:0001:0001"%string /\
+  src_ipv6_int_to_str Platform (-1) None = Raise ValueError /\
+  src_ipv6_int_to_arpa Platform 1 = Ok "1.0.0.0.0.0.0.0.0.0.0.0.0.0.0.0.0.0.0.0.0.0.0.0.0.0.0.0.0.0.0.0.ip6.arpa."%string.
 Proof. repeat split; vm_compute; reflexivity. Qed.
